@@ -527,7 +527,11 @@ func (c c18) Run(e *Env, cs *Case) (*Outcome, error) {
 		return viol("binary-differs", fmt.Sprintf("binary of the rerun after %s is %s, uninterrupted reference is %s", key, got[:16], ref.Sha[:16])), nil
 	}
 	if p.Start == "debugdir" {
-		if sum, n := DebugDirSum(filepath.Join(w.Out, "debugdir")); sum != ref.DebugSum {
+		deps, err := e.Deps(p.Prog, nil)
+		if err != nil {
+			return nil, err
+		}
+		if sum, n, _ := DebugDirSum(filepath.Join(w.Out, "debugdir"), deps); sum != ref.DebugSum {
 			return viol("debugdir-differs", fmt.Sprintf("-debugdir tree of the rerun has %d files and differs from the uninterrupted reference (%d files)", n, ref.DebugN)), nil
 		}
 	}
